@@ -24,13 +24,27 @@ func raceTier(c *corr.Ctx) {
 		return
 	}
 	goDir := filepath.Join(filepath.Dir(exe), "..", "..", "go")
+	var modflag []string
 	if _, err := os.Stat(filepath.Join(goDir, "go.mod")); err != nil {
-		c.Note("race tier skipped: harness module not found next to the binary")
-		return
+		// isolation mode of ./check (VERIF_REPO): the binary lives in .work/iso-<pid>/bin next to a
+		// private go.mod whose `replace` points at the tree under test
+		iso := filepath.Join(filepath.Dir(exe), "..", "go.mod")
+		goDir = filepath.Join(filepath.Dir(exe), "..", "..", "..", "go")
+		if _, err2 := os.Stat(iso); err2 != nil {
+			c.Note("race tier skipped: harness module not found next to the binary")
+			return
+		}
+		if _, err2 := os.Stat(filepath.Join(goDir, "go.mod")); err2 != nil {
+			c.Note("race tier skipped: harness module not found next to the binary")
+			return
+		}
+		modflag = []string{"-modfile=" + iso}
 	}
 	bin := filepath.Join(filepath.Dir(exe), "ring_race")
 	env := append(os.Environ(), "CGO_ENABLED=1", "GOFLAGS=-mod=mod", "GOPROXY=off")
-	b := exec.Command("go", "build", "-race", "-tags", "verif", "-o", bin, "./cmd/ring")
+	args := append([]string{"build"}, modflag...)
+	args = append(args, "-race", "-tags", "verif", "-o", bin, "./cmd/ring")
+	b := exec.Command("go", args...)
 	b.Dir, b.Env = goDir, env
 	if out, err := b.CombinedOutput(); err != nil {
 		c.Note("race tier skipped: a race-enabled build is not possible here: " + lastLine(string(out)))
